@@ -23,7 +23,9 @@ namespace AIToolbox::MDP {
     }
 
     std::ostream & operator<<(std::ostream & os, const Experience & exp) {
+        const auto oldFlags = os.setf(std::ios::dec, std::ios::basefield);
         os << exp.getTimesteps() << '\n';
+        os.flags(oldFlags);
         write(os, exp.getVisitsTable());
         write(os, exp.getRewardMatrix());
         write(os, exp.getM2Matrix());
@@ -32,7 +34,9 @@ namespace AIToolbox::MDP {
     }
 
     std::ostream & operator<<(std::ostream & os, const SparseExperience & exp) {
+        const auto oldFlags = os.setf(std::ios::dec, std::ios::basefield);
         os << exp.getTimesteps() << '\n';
+        os.flags(oldFlags);
         write(os, exp.getVisitsTable());
         write(os, exp.getRewardMatrix());
         write(os, exp.getM2Matrix());
